@@ -203,7 +203,7 @@ func bOf(v int) string {
 	if v == 8 {
 		return "r8" + strings.Repeat("y", 388) // the encoded row is exactly 400 bytes: the largest row the engine accepts
 	}
-	return fmt.Sprintf("r%d%s", v, strings.Repeat("y", v%6))
+	return fmt.Sprintf("r%d%s", v, strings.Repeat("y", 7*(v%6)))
 }
 
 func renderStmt(st Step) string {
@@ -237,11 +237,14 @@ func renderStmt(st Step) string {
 }
 
 // whereOf renders the specification's WHERE codes: 0 none, w < 100: a = w, w > 100: a >= w - 100
+// plainWhere: the long random runs use arbitrary INT values, so every non-zero WHERE code there is an equality
+var plainWhere bool
+
 func whereOf(w int) string {
 	switch {
 	case w == 0:
 		return ""
-	case w > 100:
+	case w > 100 && !plainWhere:
 		return fmt.Sprintf(" WHERE a >= %d", w-100)
 	}
 	return fmt.Sprintf(" WHERE a = %d", w)
@@ -1147,6 +1150,8 @@ func durableRecords(ios []storage.VerifIO, e int, keep bool) int {
 func randomRun(rq RandReq) (res Result) {
 	res.OK = true
 	res.Stats = map[string]int{}
+	plainWhere = true
+	defer func() { plainWhere = false }()
 	rng := newRand(rq.Seed)
 	w := &World{cache: rq.Cache}
 	defer func() {
@@ -1290,6 +1295,16 @@ func randomRun(rq RandReq) (res Result) {
 	if maxRows <= 0 {
 		maxRows = 8
 	}
+	// values of the INT column: 1..5 by default (every WHERE matches a fifth of a table); under a small page cache a
+	// statement's dirty set has to fit the cache (precondition of C16), so values are drawn from a domain that grows with
+	// the number of rows inserted - a WHERE then matches a handful of rows - and 8 / 9 (reserved codes) are avoided
+	inserted := 0
+	val := func() int {
+		if rq.Cache == 0 {
+			return 1 + rng.Intn(5)
+		}
+		return 10 + rng.Intn(20+inserted/3)
+	}
 	for i := 0; i < rq.N; i++ {
 		t := tables[rng.Intn(len(tables))]
 		if rq.Bias == "grow" && rng.Intn(10) < 8 {
@@ -1298,23 +1313,30 @@ func randomRun(rq RandReq) (res Result) {
 		st := Step{T: t}
 		evm := map[string]interface{}{"t": t}
 		p := rng.Intn(100)
+		tIns, tUpd, tDel := 60, 74, 86
+		if rq.Bias == "grow" {
+			tIns, tUpd, tDel = 76, 83, 88 // mostly inserts, but every kind of statement still occurs
+		}
 		switch {
-		case p < 60 || (rq.Bias == "grow" && p < 88):
+		case p < tIns:
 			st.A = "insert"
 			n := 1 + rng.Intn(maxRows)
 			for j := 0; j < n; j++ {
-				st.Rows = append(st.Rows, 1+rng.Intn(5))
+				st.Rows = append(st.Rows, val())
 			}
 			evm["rows"] = st.Rows
-		case p < 74:
-			st.A, st.W, st.V = "update", rng.Intn(6), 1+rng.Intn(5)
+		case p < tUpd:
+			st.A, st.W, st.V = "update", val(), val()
+			if rq.Cache == 0 && rng.Intn(6) == 0 {
+				st.W = 0 // no WHERE
+			}
 			evm["w"], evm["v"] = st.W, st.V
-		case p < 86:
-			st.A, st.W = "delete", 1+rng.Intn(5)
+		case p < tDel:
+			st.A, st.W = "delete", val()
 			evm["w"] = st.W
 		case p < 90:
 			st.A = "insert"
-			st.Rows = []int{-1 - rng.Intn(4), 1 + rng.Intn(5)} // the first row is invalid: nothing may change
+			st.Rows = []int{-1 - rng.Intn(4), val()} // the first row is invalid: nothing may change
 			st.Rows = st.Rows[:1+rng.Intn(2)]
 			evm["rows"] = st.Rows
 		case p < 93:
@@ -1336,7 +1358,9 @@ func randomRun(rq RandReq) (res Result) {
 		}
 		omark(map[string]interface{}{"e": "begin", "k": st.A})
 		e, panicked := w.exec(renderStmt(st))
-		omark(map[string]interface{}{"e": "result", "ok": e == nil})
+		if !(rq.Cache > 0 && errors.Is(e, storage.ErrLRUCacheFull)) {
+			omark(map[string]interface{}{"e": "result", "ok": e == nil})
+		}
 		var ios []storage.VerifIO
 		if inWal {
 			ios = storage.VerifTakeIO()
@@ -1347,15 +1371,33 @@ func randomRun(rq RandReq) (res Result) {
 		}
 		if rq.Cache > 0 {
 			if errors.Is(e, storage.ErrLRUCacheFull) {
-				res.CacheFul = true
-				res.Diverged = "precondition of C16 not met: cache full of dirty pages"
-				return
+				// the statement's dirty set did not fit the cache: the precondition of C16 (and of "an error changes
+				// nothing") is not met for this statement. Nothing of it was logged or flushed, so the process is
+				// abandoned here and restarted: the tables are then as before the statement, and the run goes on.
+				res.Stats["cachefull-stmts"]++
+				if res.Stats["cachefull-stmts"] > rq.N/4 {
+					res.CacheFul = true
+					res.Diverged = "precondition of C16 not met: cache full of dirty pages in more than a quarter of the statements"
+					return
+				}
+				omark(map[string]interface{}{"e": "aborted"})
+				w.abandon()
+				omark(map[string]interface{}{"e": "crash", "maxlsn": walMax()})
+				evm["ok"] = false
+				ev(evm)
+				if !recoverAndObserve() {
+					return
+				}
+				continue
 			}
 			if fe := storage.VerifFlush(w.sess.RelationService); fe != nil {
 				return fail("flush failed: " + fe.Error())
 			}
 		}
 		res.Stats["stmts"]++
+		if st.A == "insert" && e == nil {
+			inserted += len(st.Rows)
+		}
 		nWal := 0
 		for _, x := range ios {
 			if x.File == "wal" {
